@@ -664,6 +664,10 @@ class PE:
         a = self.ev(e["l"], env)
         b = self.ev(e["r"], env)
         op = e["op"]
+        if op in ("Shl", "Shr") and isinstance(b, int) and not isinstance(b, bool):
+            bits_ = INT_BITS.get(e.get("ty") or "")
+            if bits_ and (b < 0 or b >= bits_):
+                self.overflow.append((op, "shift amount", b, e.get("sp")))
         if isinstance(a, (Lin, Wx)) or isinstance(b, (Lin, Wx)):
             return self.lin_binary(op, a, b, e)
         if isinstance(a, bool):
@@ -1143,6 +1147,8 @@ class PE:
             if dv is not None:
                 return dv
             return Sym(("default", e.get("ty")), e.get("ty"))
+        if name == "new" and d.startswith("core::ops::range::RangeInclusive") and len(args) == 2:
+            return Adt("core::ops::range::RangeInclusive", "RangeInclusive", {"start": args[0], "end": args[1]})
         if name == "len_utf8" and len(args) == 1 and isinstance(a0, int) and not isinstance(a0, bool):
             return 1 if a0 < 0x80 else 2 if a0 < 0x800 else 3 if a0 < 0x10000 else 4
         if name == "len_utf16" and len(args) == 1 and isinstance(a0, int) and not isinstance(a0, bool):
